@@ -89,8 +89,13 @@ def make_case(rng):
         P['b2'] = rng.choice([0, 4])
         P['ma'] = rng.choice([16000, 2000, 0])
         P['diff'] = rng.choice([100000, 0, 5000])
-    return {'refs': refs, 'queries': queries, 'qclass': qclass, 'params': P, 'mode': rng.choice(gen.MODES),
+    case = {'refs': refs, 'queries': queries, 'qclass': qclass, 'params': P, 'mode': rng.choice(gen.MODES),
             'flavour': 'degenerate', 'ordinary': ordinary}
+    if rng.random() < 0.2 and not ordinary:
+        case['ref_text'], v1 = text.vary_syntax(text.cmap_text([tuple(m) for m in refs]), rng)
+        case['query_text'], v2 = text.vary_syntax(text.cmap_text([tuple(m) for m in queries]), rng)
+        case['flavour'] = 'degenerate+syntax:%s/%s' % (v1, v2)
+    return case
 
 
 def read_back(txt, case, sh, where):
@@ -140,7 +145,7 @@ def judge(case, wd, sh, how=None):
     for c in case.get('qclass', {}).values():
         sh.count('class:' + c)
     slim = dict(pipeline.slim_case(case), kind='e2e', decisions=D)
-    if case.get('flavour') == 'degenerate':
+    if str(case.get('flavour')).startswith('degenerate'):
         sh.nt([case['refs'], case['queries'], case['params'], case['mode']])
     # how many queries have no seed at all (longer than every reference)?
     maxref = max([int(m[1]) for m in case['refs']] or [0])
